@@ -56,6 +56,24 @@ def report_rejections(ctx, rejected, signature, what):
         ctx.violations.append((sig, path, what))
 
 
+def report_races(ctx, reports, what):
+    """A data race reported by the Go race detector in the code under test is a violation with the report as replay."""
+    os.makedirs(os.path.join(core.VERIF, "replays"), exist_ok=True)
+    known = [k for k in load_known().get("known", []) if k.get("property") == ctx.pid]
+    for rep in reports[:5]:
+        frames = [ln.strip() for ln in rep.splitlines() if "vegeta/v12" in ln or ln.strip().startswith("/repo/")]
+        sig = "data race: " + " | ".join(frames[:2])[:240]
+        hit = next((k for k in known if k.get("key") == sig), None)
+        if hit:
+            ctx.known.append({"key": sig, "what": hit.get("what", "")})
+            continue
+        path = os.path.join(core.VERIF, "replays", "%s-%s-seed%d-race%d.json" % (ctx.pid, ctx.tier, ctx.seed, len(ctx.violations)))
+        with open(path, "w") as f:
+            json.dump({"property": ctx.pid, "tier": ctx.tier, "seed": ctx.seed, "what": what, "signature": sig, "race_report": rep,
+                       "replay": "VERIF_SEED=%d bin/vcheck %s %s" % (ctx.seed, ctx.pid, ctx.tier)}, f, indent=1)
+        ctx.violations.append((sig, path, what))
+
+
 def main(argv):
     if len(argv) < 2:
         print(__doc__ or "usage: vcheck <property> quick|thorough [--replay path]", file=sys.stderr)
